@@ -114,3 +114,30 @@ Theorem C17_gaussian_weight D L nu c : symR D L -> gpivR D L ->
   (forall x, 0 <= exp (quadR D L nu x + c)) /\ is_gint D (fun x => exp (quadR D L nu x + c)) (exp (gvalR D L nu + c)).
 Proof. exact (fun Hs Hp => conj (gauss_weight_nonneg D L nu c) (gauss_nd D L nu c Hs Hp)). Qed.
 Print Assumptions C17_gaussian_weight.
+
+(* ---- exp link, any input dimension: the expectation of the bound integrand EXISTS, with a closed form, and is a lower bound ----
+   (trunc/HetBoundInt.v) Gaussian weight W x = exp (quadR D L nu x + c); affine residual projections and pre-activations
+   (`unitaff`), homoscedastic quadratic form given as a list of (coefficient, affine form, affine form) (`qterm`).
+   Hypothesis per unit: positive pivots of L + g1(ws) hl hl' (it is positive definite because g1 > 0; proved here for D = 1). *)
+From GT Require Import GaussMom HetBoundInt.
+Theorem C17_exp_bound_expectation_exists D L nu c (ts : list qterm) ld0 c0 (us : list unitaff) :
+  symR D L -> gpivR D L -> List.Forall (unit_ok D L) us ->
+  is_gint D (fun x => logp_lb sLB_exp ldUB_exp (q0_at D ts x) ld0 c0 (map (at_x D x) us) * exp (quadR D L nu x + c))
+            (lb_value D L nu c ts ld0 c0 us).
+Proof. exact (exp_bound_expectation_exists D L nu c ts ld0 c0 us). Qed.
+Print Assumptions C17_exp_bound_expectation_exists.
+
+Theorem C17_exp_lower_bound_any_dimension D L nu c (ts : list qterm) ld0 c0 (us : list unitaff) :
+  symR D L -> gpivR D L -> List.Forall (unit_ok D L) us ->
+  forall vg : R,
+  is_gint D (fun x => logp link_exp (q0_at D ts x) ld0 c0 (map (at_x D x) us) * exp (quadR D L nu x + c)) vg ->
+  lb_value D L nu c ts ld0 c0 us <= vg.
+Proof. exact (C17_exp_lower_bound_nd D L nu c ts ld0 c0 us). Qed.
+Print Assumptions C17_exp_lower_bound_any_dimension.
+
+Theorem C17_exp_lower_bound_one_dimension L nu c (ts : list qterm) ld0 c0 (us : list unitaff) :
+  0 < L O O -> List.Forall (fun u => 0 < aws u /\ 0 < awd u) us -> forall vg : R,
+  is_gint 1 (fun x => logp link_exp (q0_at 1 ts x) ld0 c0 (map (at_x 1 x) us) * exp (quadR 1 L nu x + c)) vg ->
+  lb_value 1 L nu c ts ld0 c0 us <= vg.
+Proof. exact (C17_exp_lower_bound_1d L nu c ts ld0 c0 us). Qed.
+Print Assumptions C17_exp_lower_bound_one_dimension.
